@@ -85,8 +85,10 @@ impl MergedServerSelection {
     pub fn reachable_variables(&self) -> BTreeSet<VariableNameWrapper> {
         match self {
             MergedServerSelection::ScalarField(field) => get_variables(&field.arguments).collect(),
-            MergedServerSelection::ClientObjectSelectable(field)
-            | MergedServerSelection::LinkedField(field) => get_variables(&field.arguments)
+            // A client pointer is not part of the operation (its arguments and selections
+            // are not printed), so it contributes no variables.
+            MergedServerSelection::ClientObjectSelectable(_) => BTreeSet::new(),
+            MergedServerSelection::LinkedField(field) => get_variables(&field.arguments)
                 .chain(
                     field
                         .selection_map
